@@ -310,7 +310,14 @@ func deref(t types.Type) types.Type {
 
 func fieldName(t types.Type, i int) string {
 	if st, ok := deref(t).Underlying().(*types.Struct); ok && i < st.NumFields() {
-		return st.Field(i).Name()
+		n := st.Field(i).Name()
+		// a renamed field is called by its reference name (see fieldroles.go)
+		if len(fieldCanon) > 0 {
+			if c, ok := fieldCanon[typeShort(deref(t))+"."+n]; ok {
+				return c
+			}
+		}
+		return n
 	}
 	return fmt.Sprintf("f%d", i)
 }
@@ -902,7 +909,7 @@ func (s *Sym) structLiteral(a *ssa.Alloc, st *types.Struct, at ssa.Instruction) 
 				continue
 			}
 			d := closestDominating(fdefs, at)
-			name := st.Field(r.Field).Name()
+			name := fieldName(r.X.Type(), r.Field)
 			if d == nil {
 				// several field addr instrs may exist per field; another one may define it
 				continue
@@ -1762,7 +1769,7 @@ func (s *Sym) literalStruct(base ssa.Value, st *types.Struct, name string) *Term
 		if len(refs) == 1 {
 			if store, ok := refs[0].(*ssa.Store); ok && store.Addr == fa {
 				seen[fa.Field] = true
-				kvs = append(kvs, &Term{Op: "kv", Name: st.Field(fa.Field).Name(), Args: []*Term{s.objAt(store.Val, store)}, Site: store})
+				kvs = append(kvs, &Term{Op: "kv", Name: fieldName(fa.X.Type(), fa.Field), Args: []*Term{s.objAt(store.Val, store)}, Site: store})
 				continue
 			}
 		}
@@ -1781,7 +1788,7 @@ func (s *Sym) literalStruct(base ssa.Value, st *types.Struct, name string) *Term
 			return nil
 		}
 		seen[fa.Field] = true
-		kvs = append(kvs, &Term{Op: "kv", Name: st.Field(fa.Field).Name(), Args: []*Term{sub}})
+		kvs = append(kvs, &Term{Op: "kv", Name: fieldName(fa.X.Type(), fa.Field), Args: []*Term{sub}})
 	}
 	if len(kvs) == 0 {
 		return nil
